@@ -481,3 +481,153 @@ Proof.
   - destruct (step s e) as [s1|] eqn:E; [|discriminate].
     exact (IH _ _ _ _ H (step_done _ _ _ _ _ E D)).
 Qed.
+
+(* ---------- records are stable; where they come from ---------- *)
+Definition same_w (a b : wrec) : Prop :=
+  w_url a = w_url b /\ w_content a = w_content b /\ w_tmp a = w_tmp b /\ w_ino a = w_ino b /\ w_inplace a = w_inplace b.
+
+Lemma same_w_refl : forall a, same_w a a.
+Proof. intros a. repeat split. Qed.
+
+Lemma step_w_stable : forall s e s' w wr, step s e = Some s' -> getN w (s_w s) = Some wr ->
+  exists wr', getN w (s_w s') = Some wr' /\ same_w wr wr'.
+Proof.
+  intros s e s' w wr H G.
+  destruct e; cbn in H; repeat dmatch H; inversion H; subst; clear H; cbn;
+    try (exists wr; split; [exact G|apply same_w_refl]);
+    match goal with |- context [putN ?w0 _ (s_w s)] =>
+      destruct (N.eq_dec w w0) as [->|Hn];
+         [ first [ congruence
+                 | match goal with Hw : getN w0 (s_w s) = Some ?x |- _ =>
+                     assert (x = wr) by congruence; subst x end;
+                   eexists; split; [mapN; reflexivity|repeat split] ]
+         | exists wr; split; [mapN; exact G|apply same_w_refl] ]
+    end.
+Qed.
+
+Lemma exec_w_stable : forall tr s s' w wr, exec s tr = Some s' -> getN w (s_w s) = Some wr ->
+  exists wr', getN w (s_w s') = Some wr' /\ same_w wr wr'.
+Proof.
+  induction tr as [|e tr IH]; intros s s' w wr H G; cbn in H.
+  - inversion H. subst. exists wr. split; [exact G|apply same_w_refl].
+  - destruct (step s e) as [s1|] eqn:E; [|discriminate].
+    destruct (step_w_stable _ _ _ _ _ E G) as [wr1 [G1 S1]].
+    destruct (IH _ _ _ _ H G1) as [wr2 [G2 S2]].
+    exists wr2. split; [exact G2|]. unfold same_w in *. intuition congruence.
+Qed.
+
+Lemma step_r_stable : forall s e s' r rr, step s e = Some s' -> getN r (s_r s) = Some rr ->
+  exists rr', getN r (s_r s') = Some rr' /\ r_url rr' = r_url rr /\ r_ino rr' = r_ino rr.
+Proof.
+  intros s e s' r rr H G.
+  destruct e; cbn in H; repeat dmatch H; inversion H; subst; clear H; cbn;
+    try (exists rr; split; [exact G|split; reflexivity]);
+    match goal with |- context [putN ?r0 _ (s_r s)] =>
+      destruct (N.eq_dec r r0) as [->|Hn];
+         [ first [ congruence
+                 | match goal with Hr : getN r0 (s_r s) = Some ?x |- _ =>
+                     assert (x = rr) by congruence; subst rr end;
+                   eexists; split; [mapN; reflexivity|split; reflexivity] ]
+         | exists rr; split; [mapN; exact G|split; reflexivity] ]
+    end.
+Qed.
+
+Lemma exec_r_stable : forall tr s s' r rr, exec s tr = Some s' -> getN r (s_r s) = Some rr ->
+  exists rr', getN r (s_r s') = Some rr' /\ r_url rr' = r_url rr /\ r_ino rr' = r_ino rr.
+Proof.
+  induction tr as [|e tr IH]; intros s s' r rr H G; cbn in H.
+  - inversion H. subst. exists rr. split; [exact G|split; reflexivity].
+  - destruct (step s e) as [s1|] eqn:E; [|discriminate].
+    destruct (step_r_stable _ _ _ _ _ E G) as [rr1 [G1 [U1 I1]]].
+    destruct (IH _ _ _ _ H G1) as [rr2 [G2 [U2 I2]]].
+    exists rr2. split; [exact G2|]. split; congruence.
+Qed.
+
+Lemma step_w_origin : forall s e s' w wr, step s e = Some s' -> safe e = true ->
+  getN w (s_w s') = Some wr ->
+  (exists wr0, getN w (s_w s) = Some wr0) \/ exists t, e = ECreate w (w_url wr) (w_content wr) t.
+Proof.
+  intros s e s' w wr H S G.
+  destruct e; try discriminate; cbn in H; repeat dmatch H; inversion H; subst; clear H; cbn in G;
+    try (left; exists wr; exact G);
+    match type of G with context [putN ?w0 _ (s_w s)] =>
+      destruct (N.eq_dec w w0) as [->|Hn];
+        [ rewrite (get_put_eq N.eqb Neqb_spec) in G; inversion G; subst; clear G; cbn;
+          first [ right; eexists; reflexivity | left; eexists; eassumption ]
+        | rewrite (get_put_neq N.eqb Neqb_spec) in G by exact Hn; left; exists wr; exact G ]
+    end.
+Qed.
+
+Lemma exec_w_origin : forall tr s s' w wr, exec s tr = Some s' -> forallb safe tr = true ->
+  getN w (s_w s') = Some wr ->
+  (exists wr0, getN w (s_w s) = Some wr0) \/ exists t, In (ECreate w (w_url wr) (w_content wr) t) tr.
+Proof.
+  induction tr as [|e tr IH]; intros s s' w wr H S G; cbn in H.
+  - inversion H. subst. left. exists wr. exact G.
+  - cbn in S. apply andb_true_iff in S. destruct S as [Se St].
+    destruct (step s e) as [s1|] eqn:E; [|discriminate].
+    destruct (IH _ _ _ _ H St G) as [[wr1 G1]|[t I]].
+    + destruct (step_w_origin _ _ _ _ _ E Se G1) as [L|[t Ee]]; [left; exact L|].
+      right. exists t. left.
+      destruct (exec_w_stable _ _ _ _ _ H G1) as [wr2 [G2 [U [C _]]]].
+      assert (wr2 = wr) by congruence. subst wr2. rewrite <- U, <- C. exact Ee.
+    + right. exists t. right. exact I.
+Qed.
+
+Lemma step_done_origin : forall s e s' w wr, step s e = Some s' -> inv s -> safe e = true ->
+  done_at s' w wr -> done_at s w wr \/ e = ERename w.
+Proof.
+  intros s e s' w wr H [IW _ _] S [G P].
+  destruct e; try discriminate; cbn in H; repeat dmatch H; inversion H; subst; clear H; cbn in G;
+    try (left; split; [exact G|exact P]);
+    match type of G with context [putN ?w0 _ (s_w s)] =>
+      destruct (N.eq_dec w w0) as [->|Hn];
+        [ rewrite (get_put_eq N.eqb Neqb_spec) in G; inversion G; subst; clear G; cbn in P;
+          first [ discriminate | right; reflexivity
+                | match goal with Hw : getN w0 (s_w s) = Some ?x |- _ =>
+                    destruct (IW _ _ Hw) as [Inp _]; first [rewrite Inp in P; discriminate | congruence] end ]
+        | rewrite (get_put_neq N.eqb Neqb_spec) in G by exact Hn; left; split; [exact G|exact P] ]
+    end.
+Qed.
+
+Lemma exec_done_origin : forall tr s s' w wr, exec s tr = Some s' -> inv s -> forallb safe tr = true ->
+  done_at s' w wr -> done_at s w wr \/ In (ERename w) tr.
+Proof.
+  induction tr as [|e tr IH]; intros s s' w wr H I S D; cbn in H.
+  - inversion H. subst. left. exact D.
+  - cbn in S. apply andb_true_iff in S. destruct S as [Se St].
+    destruct (step s e) as [s1|] eqn:E; [|discriminate].
+    destruct (IH _ _ _ _ H (step_inv _ _ _ I Se E) St D) as [D1|In1].
+    + destruct (step_done_origin _ _ _ _ _ E I Se D1) as [D0 | ->]; [left; exact D0|right; left; reflexivity].
+    + right. right. exact In1.
+Qed.
+
+Lemma step_r_origin : forall s e s' r rr, step s e = Some s' ->
+  getN r (s_r s') = Some rr ->
+  (exists rr0, getN r (s_r s) = Some rr0) \/ e = EOpen r (r_url rr).
+Proof.
+  intros s e s' r rr H G.
+  destruct e; cbn in H; repeat dmatch H; inversion H; subst; clear H; cbn in G;
+    try (left; exists rr; exact G);
+    match type of G with context [putN ?r0 _ (s_r s)] =>
+      destruct (N.eq_dec r r0) as [->|Hn];
+        [ rewrite (get_put_eq N.eqb Neqb_spec) in G; inversion G; subst; clear G; cbn;
+          first [ left; eexists; eassumption | right; reflexivity ]
+        | rewrite (get_put_neq N.eqb Neqb_spec) in G by exact Hn; left; exists rr; exact G ]
+    end.
+Qed.
+
+Lemma exec_r_origin : forall tr s s' r rr, exec s tr = Some s' ->
+  getN r (s_r s') = Some rr ->
+  (exists rr0, getN r (s_r s) = Some rr0) \/ In (EOpen r (r_url rr)) tr.
+Proof.
+  induction tr as [|e tr IH]; intros s s' r rr H G; cbn in H.
+  - inversion H. subst. left. exists rr. exact G.
+  - destruct (step s e) as [s1|] eqn:E; [|discriminate].
+    destruct (IH _ _ _ _ H G) as [[rr1 G1]|I].
+    + destruct (step_r_origin _ _ _ _ _ E G1) as [L|Ee]; [left; exact L|].
+      right. left.
+      destruct (exec_r_stable _ _ _ _ _ H G1) as [rr2 [G2 [U _]]].
+      assert (rr2 = rr) by congruence. subst rr2. rewrite U. exact Ee.
+    + right. right. exact I.
+Qed.
